@@ -22,6 +22,11 @@
 // port.Filter) in their own alphabets, flat groups over extreme int64 priorities and large widths, further rejection
 // variants (two / no modifier in a node object, JSON of the wrong type, near-miss scope strings), requests to the
 // endpoint that are not a complete POST (other methods, failing body readers), other spellings of a scope.
+//
+// Round 6 (round6.go): exchanges - the request pass and then the response pass of one parsed tree on ONE exchange (the
+// response's Request is the request object the request pass rewrote), over alphabets with leaves that rewrite what the
+// conditions read; header.Filter / header.RegexFilter named after the headers net/http keeps in struct fields (Host,
+// Content-Length, Transfer-Encoding), on messages parsed from wire text.
 package main
 
 import (
@@ -76,6 +81,8 @@ const (
 	kPrio
 	kFilter
 	kDupErr // (audit, appended so that the numbering of older replays stays valid) header.Append Content-Length dup: rejected on requests and responses like kErr, but EVERY such leaf returns the same error text
+	kSet    // (round 6) a request-only leaf that REWRITES what a condition refers to (URL path / query / port, request header X-Re): setLeaves[node.Set]
+	kSetHdr // (round 6) header.Modifier <hdrNames[node.Set]>: <value B>: rewrites the header a header.Filter / header.RegexFilter variant (node.CV) refers to
 )
 
 const (
@@ -135,6 +142,8 @@ func typeMask(kind int) int {
 		return reqBit
 	case kMarkS:
 		return resBit
+	case kSet:
+		return reqBit
 	}
 	return reqBit | resBit
 }
@@ -151,6 +160,9 @@ func scopeMask(nd *node) int {
 	case scBoth:
 		return reqBit | resBit
 	}
+	if nd.Kind == kSetHdr && nd.Set == hnHost {
+		return reqBit // rendered with "scope":["request"] (a response has no Host header to set)
+	}
 	return typeMask(nd.Kind)
 }
 
@@ -164,10 +176,15 @@ type node struct {
 	// (1 and 2 only where the priority is 0); nil: all explicit
 	PrioSp []int   `json:"priosp,omitempty"`
 	Kids   []*node `json:"kids,omitempty"`
-	Pos    int     `json:"pos"` // preorder index
-	ID     int     `json:"id"`  // base + Pos: the value the node writes / the error it returns
-	start  int
-	end    int
+	// Set (round 6): kSet: index into setLeaves; kSetHdr: index into hdrNames
+	Set int `json:"set,omitempty"`
+	// CV (round 6): condition variant of a header.Filter / header.RegexFilter node (0: the fixed condition of filterCond;
+	// >0: see cvOf - header name incl. the ones net/http keeps in struct fields, spelling, value)
+	CV    int `json:"cv,omitempty"`
+	Pos   int `json:"pos"` // preorder index
+	ID    int `json:"id"`  // base + Pos: the value the node writes / the error it returns
+	start int
+	end   int
 }
 
 type alphabet struct {
@@ -177,6 +194,7 @@ type alphabet struct {
 	errSc    []int // scope variants of the erroring leaf
 	extra    []int // further leaves (scope absent): kHostErr, kMarkH, kMarkU, kMarkS
 	extraSc  bool  // the further leaves additionally with every explicit scope their type implements
+	sets     []int // (round 6) rewriting leaves: indices into setLeaves
 	filters  []int
 	aggs     []bool
 	prios    []int
@@ -239,6 +257,9 @@ func (g *gen) trees(n int, f func(*node)) {
 			for _, sc := range a.extraScopes(k) {
 				f(&node{Kind: k, Scope: sc})
 			}
+		}
+		for _, s := range a.sets {
+			f(&node{Kind: kSet, Set: s})
 		}
 	}
 	for _, agg := range a.aggs {
@@ -319,6 +340,7 @@ func (a *alphabet) count(maxN int) []int64 {
 	for _, k := range a.extra {
 		leaves += int64(len(a.extraScopes(k)))
 	}
+	leaves += int64(len(a.sets))
 	S, A, P := int64(len(a.scopes)), int64(len(a.aggs)), int64(len(a.prios))
 	var FlElse, FlOnly int64 // filter types with / without an else branch
 	for _, ft := range a.filters {
@@ -434,6 +456,13 @@ func kindName(nd *node) string {
 		return "fifo"
 	case kPrio:
 		return "prio"
+	case kSet:
+		return setLeaves[nd.Set].shape
+	case kSetHdr:
+		return "sethdr[" + hdrNames[nd.Set] + "]"
+	}
+	if nd.CV > 0 {
+		return filterShape[nd.FType] + "~" + cvShape(nd.CV)
 	}
 	return filterShape[nd.FType]
 }
@@ -540,6 +569,10 @@ func (r *renderer) node(nd *node) {
 		name = "url.Modifier"
 	case kMarkS:
 		name = "status.Modifier"
+	case kSet:
+		name = setLeaves[nd.Set].modifier
+	case kSetHdr:
+		name = "header.Modifier"
 	case kFifo:
 		name = "fifo.Group"
 	case kPrio:
@@ -577,6 +610,13 @@ func (r *renderer) node(nd *node) {
 	case kMarkS:
 		r.field(&first, `"statusCode":418`)
 		r.field(&first, sc)
+	case kSet:
+		r.field(&first, setLeaves[nd.Set].fields)
+	case kSetHdr:
+		r.field(&first, `"name":"`+hdrNames[nd.Set]+`","value":"`+hdrValue[nd.Set][1]+`"`)
+		if nd.Set == hnHost {
+			r.field(&first, `"scope":["request"]`)
+		}
 	case kFifo:
 		r.field(&first, sc)
 		if r.m.kind == mutAgg && r.m.at == nd.Pos {
@@ -621,7 +661,11 @@ func (r *renderer) node(nd *node) {
 		}
 		r.b = append(r.b, ']')
 	case kFilter:
-		r.field(&first, filterCond[nd.FType])
+		if nd.CV > 0 {
+			r.field(&first, cvCond(nd.FType, nd.CV))
+		} else {
+			r.field(&first, filterCond[nd.FType])
+		}
 		r.field(&first, sc)
 		r.field(&first, `"modifier":`)
 		r.node(nd.Kids[0])
@@ -644,16 +688,28 @@ func render(nd *node, m mutation) []byte {
 // ---------------------------------------------------------------------------------------------------------
 
 type msg struct {
-	Kind int            `json:"kind"` // 0 request, 1 response
+	// Kind: 0 request, 1 response, 2 (round 6) exchange: the request pass on a request, then the response pass on a
+	// response whose Request is that same (by then possibly rewritten) request object, as the proxy does
+	Kind int            `json:"kind"`
 	Cond [nFilters]bool `json:"cond"` // truth of the url, header, querystring, method, cookie conditions for this message
 	// Multi > 0: the query parameter, the X-Cond header and the cookie named in the conditions carry two values
 	Multi int `json:"multi,omitempty"`
+	// Wire (round 6) > 0: the message is parsed from wire text by net/http (http.ReadRequest / http.ReadResponse), so
+	// that Host, Content-Length and Transfer-Encoding sit where net/http puts them: 1 neither Content-Length nor
+	// Transfer-Encoding, 2 "Content-Length: 5", 3 "Transfer-Encoding: chunked" (a response's request carries the next state)
+	Wire int `json:"wire,omitempty"`
 }
 
 func (m msg) String() string {
 	k := "request"
 	if m.Kind == 1 {
 		k = "response"
+	}
+	if m.Kind == 2 {
+		k = "exchange(request pass, then response pass on the same exchange)"
+	}
+	if m.Wire > 0 {
+		k += [...]string{"", "[wire]", "[wire, Content-Length: 5]", "[wire, Transfer-Encoding: chunked]"}[m.Wire]
 	}
 	var on []string
 	for i, c := range m.Cond {
@@ -763,6 +819,11 @@ func buildRequest(c [nFilters]bool, flip bool, multi int) *http.Request {
 // conditions to the response's own header / Set-Cookie (the request of the exchange carries the opposite values,
 // so an implementation looking at the wrong message is caught).
 func buildResponse(c [nFilters]bool, multi int) *http.Response {
+	return buildResponseOn(c, multi, buildRequest(c, true, multi))
+}
+
+// buildResponseOn: the response to the given request of the exchange.
+func buildResponseOn(c [nFilters]bool, multi int, req *http.Request) *http.Response {
 	h := http.Header{"X-Cond": two(multi, c[fHeader], "yes", "no", "nope"), "Set-Cookie": {"d=1"}, "X-Re": {"yes"}}
 	if c[fHeaderRegex] {
 		h["X-Re"] = []string{"no"} // the response's own header carries the opposite of the exchange's request header
@@ -771,7 +832,7 @@ func buildResponse(c [nFilters]bool, multi int) *http.Response {
 		h["Set-Cookie"] = append(h["Set-Cookie"], two(multi, c[fCookie], "c=1; Path=/", "c=0", "c=2")...)
 	}
 	return &http.Response{Status: "200 OK", StatusCode: 200, Proto: "HTTP/1.1", ProtoMajor: 1, ProtoMinor: 1, Header: h,
-		Request: buildRequest(c, true, multi)}
+		Request: req}
 }
 
 // ---------------------------------------------------------------------------------------------------------
@@ -790,6 +851,10 @@ type outcome struct {
 	Path   string `json:"path"`   // URL path of the (exchange's) request
 	Status int    `json:"status"` // status code (responses)
 	Extra  string `json:"extra,omitempty"`
+	// (round 6, exchanges only) Req: the outcome of the request pass (the other fields then describe the response pass);
+	// Attrs: what the exchange's request looks like at the end (attrValid | r=1 | p has 1 | port 8080 | X-Re yes)
+	Req   *outcome `json:"request_pass,omitempty"`
+	Attrs int      `json:"attrs,omitempty"`
 }
 
 func (o outcome) empty() bool { return len(o.Trace) == 0 && len(o.Errs) == 0 }
@@ -807,19 +872,27 @@ func diff(exp, obs outcome) string {
 		}
 		return "unexpected"
 	}
+	if exp.Req != nil && obs.Req != nil {
+		if s := diff(*exp.Req, *obs.Req); s != "" {
+			return "request_pass_" + s
+		}
+	}
 	if !eqInts(exp.Trace, obs.Trace) {
 		return "trace_mismatch"
 	}
 	if !eqInts(exp.Errs, obs.Errs) {
 		return "error_mismatch"
 	}
-	if exp.Yes != obs.Yes || exp.Path != obs.Path || exp.Status != obs.Status {
+	if exp.Yes != obs.Yes || exp.Path != obs.Path || exp.Status != obs.Status || exp.Attrs != obs.Attrs {
 		return "state_mismatch"
 	}
 	return ""
 }
 
 func sameOutcome(a, b outcome) bool {
+	if (a.Req == nil) != (b.Req == nil) || (a.Req != nil && !sameOutcome(*a.Req, *b.Req)) || a.Attrs != b.Attrs {
+		return false
+	}
 	return eqInts(a.Trace, b.Trace) && eqInts(a.Errs, b.Errs) && a.Yes == b.Yes && a.Path == b.Path && a.Status == b.Status && a.Extra == b.Extra
 }
 
@@ -843,6 +916,9 @@ type mstate struct {
 	trace  []int
 	yes    int
 	status int
+	// (round 6) own / req: state of the header hdrNames[i] on the message itself / on the exchange's request
+	// (hvAbsent, hvA, hvB, hvOther); for a request both are the same thing
+	own, req [nHdrNames]int
 }
 
 // interp evaluates the tree depth-first and returns the errors the node reports (nil: none).
@@ -868,6 +944,19 @@ func interp(nd *node, st *mstate) []int {
 		st.cond[fURL] = true
 	case kMarkS:
 		st.status = 418
+	case kSet: // from here on the condition that reads the rewritten part holds / does not hold
+		st.cond[setLeaves[nd.Set].cond] = setLeaves[nd.Set].val
+	case kSetHdr: // header.Modifier: the message's header of that name now has exactly the value B
+		st.own[nd.Set] = hvB
+		if st.bit == reqBit {
+			st.req[nd.Set] = hvB
+		}
+		if nd.Set == hnXCond {
+			st.yes, st.cond[fHeader] = 0, false
+		}
+		if nd.Set == hnXRe && st.bit == reqBit {
+			st.cond[fHeaderRegex] = false
+		}
 	case kFifo:
 		var all []int
 		for _, k := range nd.Kids { // listed order
@@ -898,6 +987,9 @@ func interp(nd *node, st *mstate) []int {
 		}
 	case kFilter:
 		holds := st.cond[nd.FType]
+		if nd.CV > 0 {
+			holds = cvHolds(nd.FType, nd.CV, st)
+		}
 		if nd.FType == fURL && st.cond[fPort] {
 			holds = false // the url.Filter condition names host "h.example"; the message's URL host is "h.example:8080"
 		}
@@ -912,6 +1004,9 @@ func interp(nd *node, st *mstate) []int {
 }
 
 func expect(root *node, m msg) outcome {
+	if m.Kind == 2 {
+		return expectExchange(root, m)
+	}
 	st := &mstate{bit: reqBit, cond: m.Cond}
 	if m.Kind == 1 {
 		st.bit = resBit
@@ -920,6 +1015,13 @@ func expect(root *node, m msg) outcome {
 	if m.Cond[fHeader] {
 		st.yes = 1
 	}
+	if m.Wire > 0 {
+		wireState(st, m)
+	}
+	return runInterp(root, st)
+}
+
+func runInterp(root *node, st *mstate) outcome {
 	errs := interp(root, st)
 	sort.Ints(errs)
 	o := outcome{Trace: st.trace, Errs: errs, Yes: st.yes, Path: "/miss", Status: st.status}
@@ -952,8 +1054,14 @@ func observe(reqmod martian.RequestModifier, resmod martian.ResponseModifier, m 
 	}()
 	var err error
 	var h http.Header
+	if m.Kind == 2 {
+		return observeExchange(reqmod, resmod, m, calls)
+	}
 	if m.Kind == 0 {
 		req := buildRequest(m.Cond, false, m.Multi)
+		if m.Wire > 0 {
+			req = wireRequest(m.Cond, false, m.Wire)
+		}
 		if reqmod != nil {
 			*calls++
 			err = reqmod.ModifyRequest(req)
@@ -962,6 +1070,9 @@ func observe(reqmod martian.RequestModifier, resmod martian.ResponseModifier, m 
 		o.Path = req.URL.Path
 	} else {
 		res := buildResponse(m.Cond, m.Multi)
+		if m.Wire > 0 {
+			res = wireResponse(m.Cond, m.Wire)
+		}
 		if resmod != nil {
 			*calls++
 			err = resmod.ModifyResponse(res)
@@ -973,6 +1084,12 @@ func observe(reqmod martian.RequestModifier, resmod martian.ResponseModifier, m 
 			o.Extra = "trace written to the request of a response"
 		}
 	}
+	fillOutcome(&o, h, err)
+	return o
+}
+
+// fillOutcome reads the trace header, the X-Cond marks and the returned errors into o.
+func fillOutcome(o *outcome, h http.Header, err error) {
 	for _, v := range h["X-Trace"] {
 		id, e := strconv.Atoi(strings.TrimPrefix(v, "n"))
 		if e != nil || !strings.HasPrefix(v, "n") {
@@ -1006,7 +1123,6 @@ func observe(reqmod martian.RequestModifier, resmod martian.ResponseModifier, m 
 		}
 	}
 	sort.Ints(o.Errs)
-	return o
 }
 
 func safeParse(doc []byte) (r *parse.Result, err error, panicked string) {
@@ -1125,6 +1241,18 @@ func candidates(t *node) []*node {
 		if x.Agg {
 			edit(pos, func(y, _ *node, _ int) *node { y.Agg = false; return y })
 		}
+		if x.CV > 0 { // (round 6) the fixed condition of the older families, the ordinary header name, the canonical spelling, the value that messages carry
+			name, sp, v := cvParts(x.CV)
+			edit(pos, func(y, _ *node, _ int) *node { y.CV = 0; return y })
+			if ord := map[int]int{fHeader: hnXCond, fHeaderRegex: hnXRe}[x.FType]; name != ord {
+				edit(pos, func(y, _ *node, _ int) *node { y.CV = cvOf(ord, sp, v); return y })
+			}
+			if sp == 1 {
+				edit(pos, func(y, _ *node, _ int) *node { y.CV = cvOf(name, 0, v); return y })
+			} else if v == 1 {
+				edit(pos, func(y, _ *node, _ int) *node { y.CV = cvOf(name, 0, 0); return y })
+			}
+		}
 		for i, sp := range x.PrioSp {
 			if sp != 0 {
 				i := i
@@ -1166,7 +1294,7 @@ func failingOn(t *node, kind int, sym string, calls *int64) (string, msg, bool) 
 	if err != nil {
 		return "rejected_valid", msg{Kind: kind}, sameClass("rejected_valid", sym)
 	}
-	for _, m := range msgsMulti[filterMask(t)] { // single-valued messages first
+	for _, m := range msgsOfKind(t, kind) { // single-valued messages first
 		if m.Kind != kind {
 			continue
 		}
@@ -1223,8 +1351,11 @@ type replay struct {
 }
 
 func kindStr(m msg) string {
-	if m.Kind == 0 {
+	switch m.Kind {
+	case 0:
 		return "request"
+	case 2:
+		return "response_after_request_pass"
 	}
 	return "response"
 }
@@ -1234,21 +1365,59 @@ func reportEval(root *node, m msg, sym string, c *counters) {
 		c.unclassified++
 		return
 	}
+	// when the request pass of the exchange already disagrees, that is a failure on a plain request (before and after
+	// minimising: the minimised exchange may fail earlier than the one it started from)
+	asRequest := func(t *node, m msg, sym string) (msg, string) {
+		if m.Kind != 2 || !strings.HasPrefix(sym, "request_pass_") {
+			return m, sym
+		}
+		m0 := m
+		m0.Kind = 0
+		m0.Cond[fHeader], m0.Cond[fCookie] = !m.Cond[fHeader], !m.Cond[fCookie] // (the request of an exchange carries the opposite own-header values)
+		if s0, _, _ := failure(clone(t), m0, &c.calls); s0 != "" {
+			return m0, s0
+		}
+		return m, sym
+	}
+	m, sym = asRequest(root, m, sym)
 	t, mm, s := minimise(root, m, sym, &c.calls)
+	if m2, s2 := asRequest(t, mm, s); m2.Kind != mm.Kind {
+		t, mm, s = minimise(t, m2, s2, &c.calls)
+	}
 	_, exp, obs := failure(t, mm, &c.calls)
 	doc := string(render(t, mutation{}))
 	kind := kindStr(mm)
 	if mm.Multi > 0 {
 		kind += "+multivalue" // fails only when a condition's source carries several values
 	}
+	if mm.Wire > 0 {
+		kind += "+wire" // on a message parsed from wire text by net/http
+	}
 	sig := "eval:" + shape(t) + ":" + kind + ":" + s
+	if mm.Kind == 2 {
+		sig = "eval:" + exchangeClass(t) + ":" + kind + ":" + s
+	} else if cls := headerNameClass(t); cls != "" {
+		sig = "eval:" + cls + ":" + kind + ":" + s
+	}
 	desc := fmt.Sprintf("config %s on %s: statement demands trace=%v errors=%v yes=%d path=%s status=%d; implementation gave trace=%v errors=%v yes=%d path=%s status=%d %s (minimised from %s)",
 		doc, mm, exp.Trace, exp.Errs, exp.Yes, exp.Path, exp.Status, obs.Trace, obs.Errs, obs.Yes, obs.Path, obs.Status, obs.Extra, shape(root))
+	if mm.Kind == 2 && exp.Req != nil && obs.Req != nil {
+		desc += fmt.Sprintf("; request pass: demanded trace=%v errors=%v, gave trace=%v errors=%v; the exchange's request at the end: demanded %s, observed %s",
+			exp.Req.Trace, exp.Req.Errs, obs.Req.Trace, obs.Req.Errs, attrString(exp.Attrs), attrString(obs.Attrs))
+	}
 	rep.Violate(sig, desc, replay{Part: "eval", Config: doc, Tree: t, Msg: &mm, Expected: &exp, Observed: &obs})
 }
 
 // evalTree: part 1 for one tree.
 func evalTree(root *node, c *counters, trackBehaviour, multi bool) {
+	mode := modeSingle
+	if multi {
+		mode = modeMulti
+	}
+	evalTreeMode(root, c, trackBehaviour, mode)
+}
+
+func evalTreeMode(root *node, c *counters, trackBehaviour bool, mode int) {
 	n := number(root, 0)
 	doc := render(root, mutation{})
 	c.trees++
@@ -1263,10 +1432,7 @@ func evalTree(root *node, c *counters, trackBehaviour, multi bool) {
 		return
 	}
 	reqmod, resmod := r.RequestModifier(), r.ResponseModifier()
-	msgs := msgsFor[filterMask(root)]
-	if multi {
-		msgs = msgsMulti[filterMask(root)]
-	}
+	msgs := msgsForTree(root, mode)
 	var first uint64
 	varies, nonEmpty := false, false
 	bh := fnv.New64a()
@@ -1627,6 +1793,8 @@ func runPhase(p phase, total *counters, mu *sync.Mutex, genCounts map[string]int
 					switch p.part {
 					case "eval":
 						evalTree(t, c, p.a == alphaFull && n <= 3, p.multi)
+					case "exchange":
+						evalTreeMode(t, c, false, modeExchange)
 					case "handler":
 						hw.tree(t)
 					case "prefix":
@@ -1639,7 +1807,7 @@ func runPhase(p phase, total *counters, mu *sync.Mutex, genCounts map[string]int
 				if w == 0 {
 					enumerated = int64(idx)
 				}
-				if p.part == "eval" {
+				if p.part == "eval" || p.part == "exchange" {
 					total.trees += c.trees
 					total.nontrivial += c.nontrivial
 				}
@@ -1691,6 +1859,10 @@ func doReplay(path string) {
 	if rp.Tree != nil && rp.Msg != nil {
 		var calls int64
 		s, exp, obs := failure(rp.Tree, *rp.Msg, &calls)
+		if exp.Req != nil && obs.Req != nil {
+			fmt.Printf("request pass expected: %+v\nrequest pass observed: %+v\n", *exp.Req, *obs.Req)
+			exp.Req, obs.Req = nil, nil
+		}
 		fmt.Printf("config: %s\nmessage: %s\nexpected: %+v\nobserved: %+v\nresult: %q\n", render(rp.Tree, mutation{}), *rp.Msg, exp, obs, s)
 		if s != "" {
 			os.Exit(1)
@@ -1754,7 +1926,7 @@ func main() {
 		doReplay(p)
 	}
 	if len(os.Args) > 1 && os.Args[1] == "counts" {
-		for _, a := range []*alphabet{alphaFull, alphaMid, alphaSmall, alphaTiny, alphaExt, alphaExtMid, alphaAgg} {
+		for _, a := range []*alphabet{alphaFull, alphaMid, alphaSmall, alphaTiny, alphaExt, alphaExtMid, alphaAgg, alphaX, alphaXMid} {
 			fmt.Println(a.name, a.count(6)[1:])
 		}
 		return
@@ -1783,11 +1955,16 @@ func main() {
 			{"eval", alphaAgg, []int{1, 2, 3, 4, 5, 6}, false, false},
 			{"spell", alphaFull, []int{1, 2, 3}, false, false},
 			{"spell", alphaExt, []int{1, 2}, false, false},
+			{"exchange", alphaX, []int{1, 2, 3, 4}, false, false},
+			{"exchange", alphaXMid, []int{5}, false, false},
+			{"exchange", alphaFull, []int{1, 2, 3}, false, false},
+			{"exchange", alphaExt, []int{1, 2, 3}, false, false},
 		}
-		families = []family{prioValues("prio_values", extremePrios, 4, true), prioValues("prio_values_probes", extremePrios, 5, false), prioWide(8), fifoWide(12), prioEntries(5)}
+		families = []family{prioValues("prio_values", extremePrios, 4, true), prioValues("prio_values_probes", extremePrios, 5, false), prioWide(8), fifoWide(12), prioEntries(5), headerNames()}
 		entryRejectWidth = 4
 		bounds = "evaluation: all trees with <=4 nodes over the full alphabet, all trees with exactly 5 nodes over the mid alphabet, exactly 6 nodes over the tiny alphabet (each reduced alphabet is a subset of the next larger one, so their smaller sizes are already covered); rejection/reconfiguration through the handler: full alphabet <=3 nodes, small alphabet 4 nodes; all document prefixes for <=2 nodes" +
-			"; audit extensions: evaluation of all trees with <=3 nodes over the ext alphabet and exactly 4 nodes over the extmid alphabet (remaining registered filters), flat priority groups with <=4 children (probe or erroring leaf) and <=5 children (probes) over 8 extreme int64 priorities, flat priority groups of width <=8 over 3 levels, flat fifo groups of width <=12; handler: ext alphabet <=2 nodes, extmid 3 nodes; scope spellings (null for absent, duplicated entries) at every node of full <=3 and ext <=2; error multisets (erroring leaves with one common text in flat and nested halting / aggregating fifo and priority groups, agg alphabet) <=6 nodes; two-valued condition sources (match first / later / none) on full <=3 and ext <=3; priority entry spellings (key omitted, null) on flat groups of width 2..5, entries without modifier on width 2..4; the extended rejection variants and the non-POST / failing-body requests on full <=2, mid 3, ext <=2, extmid 3; prefixes of ext documents with <=2 nodes"
+			"; audit extensions: evaluation of all trees with <=3 nodes over the ext alphabet and exactly 4 nodes over the extmid alphabet (remaining registered filters), flat priority groups with <=4 children (probe or erroring leaf) and <=5 children (probes) over 8 extreme int64 priorities, flat priority groups of width <=8 over 3 levels, flat fifo groups of width <=12; handler: ext alphabet <=2 nodes, extmid 3 nodes; scope spellings (null for absent, duplicated entries) at every node of full <=3 and ext <=2; error multisets (erroring leaves with one common text in flat and nested halting / aggregating fifo and priority groups, agg alphabet) <=6 nodes; two-valued condition sources (match first / later / none) on full <=3 and ext <=3; priority entry spellings (key omitted, null) on flat groups of width 2..5, entries without modifier on width 2..4; the extended rejection variants and the non-POST / failing-body requests on full <=2, mid 3, ext <=2, extmid 3; prefixes of ext documents with <=2 nodes" +
+			"; round 6: exchanges (request pass, then response pass on a response whose Request is that same request object) for every truth assignment, on all trees with <=4 nodes over the xchg alphabet (filters on the exchange's request x leaves that rewrite URL path / query / port / a request header), exactly 5 nodes over xchgmid, and on full <=3 and ext <=3; header-named conditions: header.Filter / header.RegexFilter over {ordinary, Host, Content-Length, Transfer-Encoding} x 2 spellings x 2 values x 5 scopes x probe scopes, alone and after a header.Modifier of that header, on wire-parsed requests and responses x 3 framings x ordinary-header truth"
 	} else {
 		phases = []phase{
 			{"eval", alphaFull, []int{1, 2, 3}, false, true},
@@ -1802,11 +1979,15 @@ func main() {
 			{"eval", alphaAgg, []int{1, 2, 3, 4, 5}, false, false},
 			{"spell", alphaFull, []int{1, 2}, false, false},
 			{"spell", alphaMid, []int{3}, false, false},
+			{"exchange", alphaX, []int{1, 2, 3}, false, false},
+			{"exchange", alphaXMid, []int{4}, false, false},
+			{"exchange", alphaFull, []int{1, 2, 3}, false, false},
 		}
-		families = []family{prioValues("prio_values", extremePrios, 3, true), prioWide(6), fifoWide(9), prioEntries(4)}
+		families = []family{prioValues("prio_values", extremePrios, 3, true), prioWide(6), fifoWide(9), prioEntries(4), headerNames()}
 		entryRejectWidth = 3
 		bounds = "evaluation: all trees with <=3 nodes over the full alphabet, exactly 4 nodes over the mid alphabet and exactly 5 nodes over the small alphabet (each reduced alphabet is a subset of the next larger one); rejection/reconfiguration through the handler: full alphabet <=2 nodes, mid alphabet 3 nodes; all document prefixes for <=2 nodes" +
-			"; audit extensions: evaluation of all trees with <=3 nodes over the ext alphabet (remaining registered filters), flat priority groups with <=3 children over 8 extreme int64 priorities, flat priority groups of width <=6 over 3 levels, flat fifo groups of width <=9; handler: ext alphabet 1 node, extmid 2 nodes; scope spellings (null for absent, duplicated entries) at every node of full <=2 and mid 3; error multisets (erroring leaves with one common text in flat and nested halting / aggregating fifo and priority groups, agg alphabet) <=5 nodes; two-valued condition sources (match first / later / none) on full <=3 and ext <=3; priority entry spellings (key omitted, null) on flat groups of width 2..4, entries without modifier on width 2..3; the extended rejection variants and the non-POST / failing-body requests on full <=2, ext 1, extmid 2"
+			"; audit extensions: evaluation of all trees with <=3 nodes over the ext alphabet (remaining registered filters), flat priority groups with <=3 children over 8 extreme int64 priorities, flat priority groups of width <=6 over 3 levels, flat fifo groups of width <=9; handler: ext alphabet 1 node, extmid 2 nodes; scope spellings (null for absent, duplicated entries) at every node of full <=2 and mid 3; error multisets (erroring leaves with one common text in flat and nested halting / aggregating fifo and priority groups, agg alphabet) <=5 nodes; two-valued condition sources (match first / later / none) on full <=3 and ext <=3; priority entry spellings (key omitted, null) on flat groups of width 2..4, entries without modifier on width 2..3; the extended rejection variants and the non-POST / failing-body requests on full <=2, ext 1, extmid 2" +
+			"; round 6: exchanges (request pass, then response pass on a response whose Request is that same request object) for every truth assignment, on all trees with <=3 nodes over the xchg alphabet (filters on the exchange's request x leaves that rewrite URL path / query / port / a request header), exactly 4 nodes over xchgmid, and on full <=3; header-named conditions: header.Filter / header.RegexFilter over {ordinary, Host, Content-Length, Transfer-Encoding} x 2 spellings x 2 values x 5 scopes x probe scopes, alone and after a header.Modifier of that header, on wire-parsed requests and responses x 3 framings x ordinary-header truth"
 	}
 	total := &counters{behaviours: map[uint64]struct{}{}, perPhase: map[string]int64{}}
 	var mu sync.Mutex
@@ -1862,10 +2043,10 @@ func main() {
 	rep.Coverage["handler_histories"] = handlerTrees
 	rep.Coverage["distinct_nontrivial"] = total.nontrivial
 	rep.Coverage["trees_per_phase"] = genCounts
-	rep.Coverage["rule"] = "every tree with exactly n nodes of the stated alphabet is generated (generator count cross-checked against a closed-form count), rendered to JSON, parsed by parse.FromJSON and run on both message kinds x every truth assignment of the filter conditions occurring in it; a tree is non-trivial when it has >=2 nodes, its expected outcome is non-empty for some message and differs between messages (kind or condition dependent)"
+	rep.Coverage["rule"] = "every tree with exactly n nodes of the stated alphabet is generated (generator count cross-checked against a closed-form count), rendered to JSON, parsed by parse.FromJSON and run on both message kinds x every truth assignment of the filter conditions occurring in it; a tree is non-trivial when it has >=2 nodes, its expected outcome is non-empty for some message and differs between messages (kind or condition dependent); exchange phases run request pass and response pass on one exchange per truth assignment; the header_names family runs on messages parsed from wire text"
 	rep.Coverage["exhaustive"] = true
 	rep.Coverage["bounds"] = bounds
-	alphas := []string{alphaFull.describe, alphaMid.describe, alphaSmall.describe, alphaTiny.describe, alphaExt.describe, alphaExtMid.describe, alphaAgg.describe}
+	alphas := []string{alphaFull.describe, alphaMid.describe, alphaSmall.describe, alphaTiny.describe, alphaExt.describe, alphaExtMid.describe, alphaAgg.describe, alphaX.describe, alphaXMid.describe}
 	for _, fam := range families {
 		alphas = append(alphas, fam.describe)
 	}
@@ -1881,6 +2062,8 @@ func main() {
 		"a node object names exactly one modifier (the single-key rule of parse.FromJSON): two keys, no key, or a JSON value that is not an object count as malformed; scope names are exactly the lower-case strings \"request\" and \"response\"; a priority is a JSON integer in the int64 range; aggregateErrors is a JSON boolean",
 		"a request to the configuration endpoint that is answered with a non-2xx status is a rejected reconfiguration (nothing may change); one answered 2xx must put the configuration it carries fully in force; a POST whose body could not be read to the end can never be accepted",
 		"errors are identified by their text (the erroring leaf's text carries its node id; the same-text erroring leaf returns one fixed text from every instance); a MultiError is read through Errors(), nested ones recursively; error MULTISETS are compared (count per text), order is not",
+		"exchanges (round 6): the response pass is run on a response whose Request field is the very request object the request pass modified (as martian.Proxy does); a condition that refers to the exchange's request (url.Filter, url.RegexFilter, querystring.Filter, port.Filter, method.Filter, header.RegexFilter) is judged on that request as it is when the response is evaluated, i.e. after the rewriting leaves of the request pass; the response pass runs even when the request pass returned an error (the proxy logs it and carries on)",
+		"header-named conditions (round 6): a message has the header lines of its wire form - Host, Content-Length and Transfer-Encoding included although net/http keeps them in struct fields - and, after header.Modifier name:value ran on it, exactly the value given for that name; header names are case-insensitive; a response has no Host header; header.RegexFilter refers to the header of the exchange's request; \"Content-Length: 0\", a message with both framing headers and transfer codings other than chunked (net/http refuses them) are not generated",
 		"leaf behaviour (header append on X-Trace/X-Cond, Content-Length and Host special cases, url.Modifier, status.Modifier) is taken as given; the property under test is the composition",
 		"rejection cases: unknown names, scope strings outside {request,response}, scopes a node type does not implement, syntactically invalid JSON and (audit extension) the wrong-type / two-key variants listed under rejection_variants; wrong types of the filters' own condition fields and \"else\":null are not examined",
 	}
